@@ -669,13 +669,13 @@ radius_pkt_attr_get_from_offset(rad_pkt_hdr_p pkt, size_t offset,
 	pkt_size = RADIUS_PKT_HDR_LEN_GET(pkt);
 	if (offset < RADIUS_PKT_HDR_SIZE || offset > pkt_size)
 		return (EINVAL);
+	if (offset == pkt_size) /* End position: no attribute here, callers look at the returned one. */
+		return (ENOATTR);
 	attr = ((rad_pkt_attr_p)(((uint8_t*)pkt) + offset));
-	if (offset != pkt_size) { /* offset == pkt_size: end position, no attribute to look at. */
-		if (2 > (pkt_size - offset)) /* No attr header. */
-			return (EBADMSG);
-		if (((uint8_t*)RADIUS_PKT_ATTR_NEXT(attr)) > (((uint8_t*)pkt) + pkt_size))
-			return (EBADMSG);
-	}
+	if (2 > (pkt_size - offset)) /* No attr header. */
+		return (EBADMSG);
+	if (((uint8_t*)RADIUS_PKT_ATTR_NEXT(attr)) > (((uint8_t*)pkt) + pkt_size))
+		return (EBADMSG);
 	(*attr_ret) = attr;
 
 	return (0);
@@ -706,8 +706,14 @@ radius_pkt_attr_find_raw(rad_pkt_hdr_p pkt, size_t offset, uint8_t attr_type,
 		return (EINVAL);
 
 	if (0 != offset) {
-		if (0 != radius_pkt_attr_get_from_offset(pkt, offset, &attr))
+		switch (radius_pkt_attr_get_from_offset(pkt, offset, &attr)) {
+		case 0:
+			break;
+		case ENOATTR: /* Search from the end position: nothing left. */
+			return (ENOATTR);
+		default:
 			return (EINVAL);
+		}
 	} else {
 		attr = RADIUS_PKT_ATTRS(pkt);
 	}
